@@ -16,7 +16,8 @@ for f in $files; do
   want=$(python3 -c "import json;c=json.load(open('$g'));print((c.get('violation') or {}).get('invariant') or c.get('invariant',''))")
   for rep in 1 2; do
     got=$(VERIF_REPO="$W" /verif/bin/vsim replay "$g" 2>&1)
-    if echo "$got" | grep -q "$want" && echo "$got" | grep -q "^VIOLATION\|C19REPLAY"; then ok=$((ok+1)); else bad=$((bad+1)); echo "REPLAY MISMATCH $g want=$want got=$(echo "$got" | tail -2 | cut -c1-200)"; fi
+    pat="$want"; case "$want" in *data-race) pat="DATA RACE";; *runtime-fatal-error) pat="fatal error";; esac
+    if echo "$got" | grep -q "$pat" && echo "$got" | grep -q "^VIOLATION\|C19REPLAY"; then ok=$((ok+1)); else bad=$((bad+1)); echo "REPLAY MISMATCH $g want=$want got=$(echo "$got" | tail -2 | cut -c1-200)"; fi
   done
 done
 git -C /repo worktree remove --force "$W"; rm -rf "$R"; rm -rf /tmp/verif-replays-other-tree
